@@ -100,7 +100,9 @@ class FaultEnumeration(Leg):
             "basic_render, render_to_plantuml_src with user_render_func, make_pyvis_net, pyvis_render_customizable, nrpickler.dumps) "
             "is run once counting the invocations n_c of each callback c, then again with a fault at the k-th invocation for EVERY "
             "k <= n_c (complete per case); after each run vars() of every object and the structural snapshot must equal the ones "
-            "before, and the call repeated with well-behaved callbacks must give the normal answer; non-trivial = >= 3 fault points")
+            "before, neighbors() of every vertex must answer as the uncached recomputation did before the call (each entry point "
+            "meets a fresh copy of the graph, so cold memos are exercised), and the call repeated with well-behaved callbacks must "
+            "give the normal answer; non-trivial = >= 3 fault points")
     quick_n = 40
     thorough_n = 600
 
@@ -116,20 +118,43 @@ class FaultEnumeration(Leg):
                 members = [vids[0]]
             yield {"ops": ops, "u": u, "start": rng.choice(members), "caching": rng.random() < 0.5}
 
-    def observe(self, case):
+    def _build(self, case):
         w = H.World()
+        for op in case["ops"]:
+            w.do(op)
+        for i, o in enumerate(w.objs):
+            if H.kind_of(o) in H.VERTEX_KINDS and i % 2:
+                o.tag = i
+        Vertex.NEIGHBOR_CACHING = case["caching"]
+        return w
+
+    @staticmethod
+    def _qview(w):
+        """what neighbors() reports for every vertex (two argument sets), with the caching flag as it is"""
+        out = {}
+        for i, o in enumerate(w.objs):
+            if H.kind_of(o) in H.VERTEX_KINDS:
+                out[i] = [Q.run_query(w, ["NB", i, "Fwd", "UNb", None]), Q.run_query(w, ["NB", i, "AnyDir", "UErr", None]),
+                          Q.run_query(w, ["NB", i, "Fwd", "UErr", None])]
+        return out
+
+    def observe(self, case):
+        from . import c05
         problems = []
         points = 0
         try:
-            for op in case["ops"]:
-                w.do(op)
-            for i, o in enumerate(w.objs):
-                if H.kind_of(o) in H.VERTEX_KINDS and i % 2:
-                    o.tag = i
-            Vertex.NEIGHBOR_CACHING = case["caching"]
-            eps = entry_points(w, case["u"], case["start"])
-            for name, (cbnames, cbs, run) in eps.items():
+            w0 = self._build(case)
+            names = list(entry_points(w0, case["u"], case["start"]))
+            w0.close()
+        except H.CaseInvalid:
+            return None
+        for name in names:
+            # a fresh copy of the graph per entry point, so that every one meets cold neighbour memos
+            w = self._build(case)
+            try:
+                cbnames, cbs, run = entry_points(w, case["u"], case["start"])[name]
                 snap0, attrs0 = w.snapshot(), attr_view(w)
+                truth = c05.uncached(w, lambda: self._qview(w))
                 wrapped = {c: Faulty(cbs[c]) for c in cbnames}
                 try:
                     normal = run(wrapped)
@@ -137,6 +162,12 @@ class FaultEnumeration(Leg):
                     normal = ["raise", type(e).__name__]
                 if w.snapshot() != snap0 or attr_view(w) != attrs0:
                     problems.append(f"{name}: the graph changed during a normal call")
+                    break
+                view = self._qview(w)
+                if view != truth:
+                    bad = next(i for i in truth if view[i] != truth[i])
+                    problems.append(f"{name}: after the call neighbors() of vertex {bad} reports {view[bad]}, before it {truth[bad]} "
+                                    f"(caching {'on' if case['caching'] else 'off'})")
                     break
                 counts = {c: wrapped[c].n for c in cbnames}
                 for c in cbnames:
@@ -154,6 +185,9 @@ class FaultEnumeration(Leg):
                             diff = [(i, set(a) ^ set(b)) for i, (a, b) in enumerate(zip(attrs0, attr_view(w))) if a != b][:3]
                             problems.append(f"{name}: a fault at invocation {k} of {c} ({ended}) left the graph changed: {diff}")
                             break
+                        if self._qview(w) != truth:
+                            problems.append(f"{name}: after a fault at invocation {k} of {c} ({ended}) neighbors() answers changed")
+                            break
                         wr2 = {x: Faulty(cbs[x]) for x in cbnames}
                         try:
                             again = run(wr2)
@@ -165,12 +199,10 @@ class FaultEnumeration(Leg):
                             break
                     if problems:
                         break
-                if problems:
-                    break
-        except H.CaseInvalid:
-            return None
-        finally:
-            w.close()
+            finally:
+                w.close()
+            if problems:
+                break
         return {"problems": problems, "fault_points": points}
 
     def oracle(self, case, obs):
